@@ -1,5 +1,7 @@
 import IastModel.Lemmas.CovLemmas
 import IastModel.Lemmas.NotBin
+import IastModel.Lemmas.CovAssign
+import IastModel.Lemmas.CovRecv
 namespace IastModel
 open Node
 
@@ -312,7 +314,6 @@ theorem visit_cover (cfg : Config) (ok : String → Bool) (hcfg : CfgOk ok cfg) 
           exact ⟨skbin _ _ skl skr, by intro h; exact absurd h hpe⟩
     | assign op l r sp =>
       simp only [visit] at hfo ⊢
-      have hr : reqOwn cfg d sp0 (.assign op l r sp) = 0 := rfl
       have hvk : visitedKids cfg (.assign op l r sp) = (Node.assign op l r sp).kids := rfl
       by_cases hpe : cfg.plusEnabled = true
       · simp only [hpe, if_true, run_bind] at hfo ⊢
@@ -338,10 +339,11 @@ theorem visit_cover (cfg : Config) (ok : String → Bool) (hcfg : CfgOk ok cfg) 
             have hsp := toDdAssign_spec ok true cfg op l' r' sp s1 g.1 g.2 hts (hcfg.1 hpe)
             have h2 := toDdAssign_Q (qAt d sp0) cfg op l' r' sp s1 hts
             have h3 := toDdAssign_mirror cfg op l' r' sp s1
-            generalize toDdAssign cfg (.assign op l' r' sp) s1 = X at h2 h3 hsp hfo
+            have h4 := toDdAssign_some cfg op l' r' sp s1 hts (tshape_notPattern hts)
+            generalize toDdAssign cfg (.assign op l' r' sp) s1 = X at h2 h3 h4 hsp hfo
             obtain ⟨res, s2⟩ := X
             obtain ⟨t2, _⟩ := hsp
-            simp only at h2 h3 t2 hfo ⊢
+            simp only at h2 h3 h4 t2 hfo ⊢
             have e2 : StOk s2 := ((e.trans (Eff.of_TS t2))).stOk hs
             have hu := updateStatus_statusOf res (some Generated.addAssignTag) s2 e2
             have hfo3 : (updateStatus (statusOf res) (some Generated.addAssignTag) s2).2.fuelOut = false :=
@@ -350,48 +352,99 @@ theorem visit_cover (cfg : Config) (ok : String → Bool) (hcfg : CfgOk ok cfg) 
             have hk := hgen1 hfo1
             rw [finish_fst]
             cases res with
-            | none =>
-              simp only [Option.getD_none]
-              exact ⟨by rw [R_eq, hr, hvk]; omega, ⟨rfl, by intro _ h; cases h⟩⟩
+            | none => simp at h4
             | some e' =>
               simp only [Option.getD_some]
               obtain ⟨target, first, args, asg, he', _⟩ := h3 e' rfl
               have hq := h2 e' rfl
-              refine ⟨by rw [R_eq, hr, hvk, hq]; omega, ?_⟩
-              rw [he']; exact ⟨rfl, by intro _ h; cases h⟩
+              have hsq : qAt d sp0 (siteOf e') = (decide (cfg.plusName = d) && decide (sp = sp0)) := by
+                rw [he', siteOf_assign, lastOf_ddParen, qAt_ddCall]
+              rw [hsq] at hq
+              refine ⟨?_, ?_⟩
+              · rw [R_eq, hvk, hq]
+                simp only [reqOwn, hop, hpe, Bool.true_and]
+                by_cases hd : (decide (cfg.plusName = d) && decide (sp = sp0)) = true
+                · simp only [hd, if_true]
+                  split <;> omega
+                · simp only [hd, Bool.false_eq_true, if_false]
+                  have : (if (!isOtherNode l && decide (cfg.plusName = d) && decide (sp = sp0)) = true then 1 else 0) = 0 := by
+                    simp only [Bool.and_assoc] at hd ⊢
+                    simp [hd]
+                  omega
+              · rw [he']; exact ⟨rfl, by intro _ h; cases h⟩
           · simp only [hop, Bool.false_eq_true, if_false, run_bind, run_pure] at hfo ⊢
             have hfo1 : s1.fuelOut = false := (finish_TS root _ _).fo hfo
             rw [finish_fst]
+            have hop' : (op == "+=") = false := by simpa using hop
+            have hr : reqOwn cfg d sp0 (.assign op l r sp) = 0 := by simp [reqOwn, hop']
             exact ⟨by rw [R_eq, hr, hvk, Nat.zero_add]; exact hgen1 hfo1, ⟨rfl, by intro _ h; cases h⟩⟩
       · simp only [hpe, Bool.false_eq_true, if_false] at hfo ⊢
-        exact hplain _ s h0 ht hs hfo (by intro _ _ _ _ h; cases h) rfl rfl
+        have hpe' : cfg.plusEnabled = false := by simpa using hpe
+        exact hplain _ s h0 ht hs hfo (by intro _ _ _ _ h; cases h) (by simp [reqOwn, hpe']) rfl
     | call c as sp =>
       simp only [visit, run_bind] at hfo ⊢
-      have hr : reqOwn cfg d sp0 (.call c as sp) = 0 := rfl
       have hvk : visitedKids cfg (.call c as sp) = (Node.call c as sp).kids := rfl
       obtain ⟨ks', h1, hl, g, e, p⟩ := mapKids_spec' ok _ (hv false) (.call c as sp) s h0 ht hs
       have hgen1 := hgen false (.call c as sp) s h0 ht hs
-      generalize mapKidsM mapM' (visit cfg f false) (.call c as sp) s = K at h1 hgen1 e hfo
+      -- the visited callee
+      have hc' : ∃ as', (mapKidsM mapM' (visit cfg f false) (.call c as sp) s).1 = .call (visit cfg f false c s).1 as' sp :=
+        ⟨(mapM' (visit cfg f false) as (visit cfg f false c s).2).1,
+         by simp only [mapKidsM, kids, mapM', run_bind, run_pure, withKids, List.getD_cons_zero, List.drop_succ_cons, List.drop_zero]⟩
+      generalize mapKidsM mapM' (visit cfg f false) (.call c as sp) s = K at h1 hgen1 e hfo hc'
       obtain ⟨n1, s1⟩ := K
-      simp only at h1 hgen1 e hfo ⊢
+      simp only at h1 hgen1 e hfo hc' ⊢
       match ks', hl, g, h1 with
       | c' :: as', _, g, h1 =>
         simp only [withKids, List.getD_cons_zero, List.drop_succ_cons, List.drop_zero] at h1
         subst h1
+        obtain ⟨as'', hcc⟩ := hc'
+        simp only [Node.call.injEq] at hcc
+        obtain ⟨hcc, _, _⟩ := hcc
         simp only [goodL_cons, Bool.and_eq_true] at g
         simp only at hfo ⊢
+        -- what the specification requires for this node
+        have hreq : reqOwn cfg d sp0 (.call c as sp) = 0 ∨
+            ∃ recv m msp cmsp csi, c = .member recv (.pname m msp) cmsp ∧ cfg.get m = some csi ∧ isCallOrApply m = false ∧
+              recvOK cfg m recv = true ∧ reqOwn cfg d sp0 (.call c as sp) = (if (decide (csi.dst = d) && decide (sp = sp0)) = true then 1 else 0) := by
+          cases c with
+          | member recv prop cmsp =>
+            cases prop with
+            | pname m msp =>
+              simp only [reqOwn]
+              cases hgm : cfg.get m with
+              | none => left; rfl
+              | some csi =>
+                simp only
+                by_cases hca : isCallOrApply m = true
+                · left; simp [hca]
+                · by_cases hro : recvOK cfg m recv = true
+                  · right
+                    have hca' : isCallOrApply m = false := by simpa using hca
+                    exact ⟨recv, m, msp, cmsp, csi, rfl, hgm, hca', hro, by simp [hca', hro]⟩
+                  · left; simp [hro]
+            | _ => left; rfl
+          | _ => left; rfl
         split at hfo
         · rename_i hne
           simp only [hne, if_true, run_bind, run_pure] at hfo ⊢
           have hfo1 : s1.fuelOut = false := (finish_TS root _ _).fo hfo
           rw [finish_fst]
-          exact ⟨by rw [R_eq, hr, hvk, Nat.zero_add]; exact hgen1 hfo1, ⟨rfl, by intro _ h; cases h⟩⟩
+          refine ⟨?_, ⟨rfl, by intro _ h; cases h⟩⟩
+          rw [R_eq, hvk]
+          rcases hreq with hr | ⟨recv, m, msp, cmsp, csi, rfl, _, _, hro, _⟩
+          · rw [hr, Nat.zero_add]; exact hgen1 hfo1
+          · -- the callee is a member access, which is an expression callee
+            exfalso
+            obtain ⟨recv', hrv, _⟩ := visit_member_recv cfg m recv msp cmsp hro f false s
+            rw [hrv] at hcc
+            rw [hcc] at hne
+            simp [isNonExprCallee] at hne
         · rename_i hne
           simp only [hne, Bool.false_eq_true, if_false, run_bind] at hfo ⊢
           have hsp := toDdCall_spec ok true cfg c' as' sp s1 hcfg.2.2 g.1 g.2
           have h2 := toDdCall_Q (qAt d sp0) cfg c' as' sp s1
           have h3 := toDdCall_mirror cfg c' as' sp s1
-          generalize toDdCall cfg (.call c' as' sp) s1 = X at h2 h3 hsp hfo
+          generalize hX : toDdCall cfg (.call c' as' sp) s1 = X at h2 h3 hsp hfo
           obtain ⟨res, s2⟩ := X
           obtain ⟨t2, _⟩ := hsp
           simp only at h2 h3 t2 hfo ⊢
@@ -401,7 +454,17 @@ theorem visit_cover (cfg : Config) (ok : String → Bool) (hcfg : CfgOk ok cfg) 
             simp only [run_bind, run_pure] at hfo ⊢
             have hfo1 : s1.fuelOut = false := t2.fo ((finish_TS root _ _).fo hfo)
             rw [finish_fst]
-            exact ⟨by rw [R_eq, hr, hvk, Nat.zero_add]; exact hgen1 hfo1, ⟨rfl, by intro _ h; cases h⟩⟩
+            refine ⟨?_, ⟨rfl, by intro _ h; cases h⟩⟩
+            rw [R_eq, hvk]
+            rcases hreq with hr | ⟨recv, m, msp, cmsp, csi, rfl, hgm, hca, hro, _⟩
+            · rw [hr, Nat.zero_add]; exact hgen1 hfo1
+            · exfalso
+              obtain ⟨recv', hrv, hcv⟩ := visit_member_recv cfg m recv msp cmsp hro f false s
+              rw [hrv] at hcc
+              subst hcc
+              have := toDdCall_some cfg recv' m msp cmsp as' sp s1 (by rw [hgm]; rfl) hca hcv
+              rw [hX] at this
+              simp at this
           | some et =>
             obtain ⟨e', tag⟩ := et
             simp only [run_bind, run_pure] at hfo ⊢
@@ -409,12 +472,21 @@ theorem visit_cover (cfg : Config) (ok : String → Bool) (hcfg : CfgOk ok cfg) 
             have hfo1 : s1.fuelOut = false := t2.fo (hu.fo ((finish_TS root _ _).fo hfo))
             have hk := hgen1 hfo1
             rw [finish_fst]
-            obtain ⟨csi, _, hq⟩ := h2 e' tag rfl
+            obtain ⟨csi0, _, hq⟩ := h2 e' tag rfl
             obtain ⟨first, args, asg, name, sp', he', _⟩ := h3 e' tag rfl
+            rw [cq_call_user _ _ _ _ (hookName?_call_none _ _ g.1)] at hk
             refine ⟨?_, ?_⟩
-            · rw [R_eq, hr, hvk, hq]
-              rw [cq_call_user _ _ _ _ (hookName?_call_none _ _ g.1)] at hk
-              omega
+            · rw [R_eq, hvk, hq]
+              rcases hreq with hr | ⟨recv, m, msp, cmsp, csi, rfl, hgm, hca, hro, hr⟩
+              · rw [hr]; omega
+              · obtain ⟨recv', hrv, hcv⟩ := visit_member_recv cfg m recv msp cmsp hro f false s
+                rw [hrv] at hcc
+                subst hcc
+                obtain ⟨first2, args2, asg2, he2⟩ := toDdCall_member_site cfg recv' m msp cmsp as' sp s1 csi hgm hca e' tag (by rw [hX])
+                have hsq : qAt d sp0 (lastOf e') = (decide (csi.dst = d) && decide (sp = sp0)) := by
+                  rw [he2, lastOf_ddParen, qAt_ddCall]
+                rw [hr, hsq]
+                split <;> omega
             · rw [he']
               obtain ⟨k1, k2⟩ := isPlusSum_ddParen first args asg name sp'
               exact ⟨by rw [k2]; rfl, by intro _ h; rw [k1] at h; cases h⟩
